@@ -519,8 +519,13 @@ def trace_leg(ctx, rows):
 
     def build(tp):
         out = os.path.join(vlib.GOB, "bin", tp["name"] + "_ltrace.test")
-        rc, o, e = vlib.sh(["go", "test", "-c", "-vet=off", "-tags", "verif", "-modfile=" + os.path.join(vlib.GOB, "go.mod"), "-overlay", ovp,
-                            "-ldflags=-checklinkname=0", "-o", out, tp["pkg"]], cwd=vlib.REPO, env=vlib.GOENV, timeout=900)
+        for attempt in range(2):
+            rc, o, e = vlib.sh(["go", "test", "-c", "-vet=off", "-tags", "verif", "-modfile=" + os.path.join(vlib.GOB, "go.mod"), "-overlay", ovp,
+                                "-ldflags=-checklinkname=0", "-o", out, tp["pkg"]], cwd=vlib.REPO, env=vlib.GOENV, timeout=900)
+            if rc == 0 or "missing module declaration" not in (o + e):
+                break
+            time.sleep(2)       # the shared go.mod copy was being rewritten by a check running next to this one (see vlib.go_prepare)
+            vlib.go_prepare()
         if rc != 0:
             raise vlib.GoBuildError("instrumented build of %s failed (locktable -instr wrote a copy that does not compile):\n%s" % (tp["pkg"], (o + e)[-3000:]))
         return out
